@@ -316,8 +316,45 @@ func (e *Exec) load(st *State, fr *Frame, p *PtrV, pos token.Pos) Value {
 	}
 	l := e.locOf(p)
 	v := st.LoadLoc(l)
-	e.assumeValid(st, l.T, v)
+	if unresolvedLoad(l, v) {
+		e.assumeValid(st, l.T, v)
+	} else if os.Getenv("GOVC_DEBUG") == "6" && e.discovery == 0 {
+		if fl := flatten(l.T, v); len(fl) > 1 {
+			fmt.Fprintf(os.Stderr, "RESOLVED-LOAD %s in %s: %s\n", l.Key, e.curFn, showTerm(fl[len(fl)-1], 3))
+		}
+	}
 	return v
+}
+
+// unresolvedLoad: every component of the loaded value is a read of the location's own heap VARIABLE (the initial heap
+// or a havocked one), not a term that an earlier store of this path put there. Only then is "memory holds well-formed
+// values" a fact about symbols that mean the same on every path; a value this path stored itself is well formed by
+// construction, and restating its bounds as a path-independent fact would leak this path's bounds checks.
+func unresolvedLoad(l Loc, v Value) (ok bool) {
+	defer func() {
+		if x := recover(); x != nil {
+			ok = false
+		}
+	}()
+	cs := components(l.T)
+	ts := flatten(l.T, v)
+	if len(cs) != len(ts) {
+		return false
+	}
+	for i, c := range cs {
+		t := ts[i]
+		for t.Op == "select" {
+			t = t.Args[0]
+		} // (a havoc of exactly this location stores a fresh variable named after it: also a symbol of its own)
+		name := t.Name
+		if k := strings.LastIndex(name, "!"); k > 0 {
+			name = name[:k] // fresh-symbol counter
+		}
+		if t.Op != "var" || !(strings.HasSuffix(name, ":"+l.Key+c.suffix) || strings.HasSuffix(name, "_"+sanitize(l.Key+c.suffix))) {
+			return false
+		}
+	}
+	return true
 }
 
 // assumeValid adds the facts that hold for every value read from memory: references are nil or already allocated,
@@ -349,7 +386,10 @@ func (e *Exec) assumeValid(st *State, t types.Type, v Value) {
 			st.AssumeFact(IntLt(x.Arr, e.refBound(st, x.Arr)))
 		}
 	case *SliceV:
-		if x.Arr.Op != "ref" && x.Len.Op != "bvconst" {
+		// only a slice made of symbols (an input, a fresh result, a value read from unknown memory) gets the type
+		// invariant as a fact; a slice computed from others (s[a:b], append, ...) is well formed by construction on its
+		// own path, and stating that as a path-independent fact would leak the path's bounds checks to other paths
+		if x.Arr.Op != "ref" && x.Len.Op != "bvconst" && atomic(x.Len) && atomic(x.Cap) && (atomic(x.Off) || x.Off.Op == "bvconst") {
 			e.assumeSliceWF(st, x)
 		}
 	case *StrV:
@@ -425,6 +465,13 @@ func (e *Exec) alloc(st *State, t types.Type) *PtrV {
 	}
 	p := &PtrV{Kind: PObj, Base: r, Root: t}
 	e.zeroObject(st, p)
+	if e.specs != nil {
+		for _, g := range e.specs.ghostWriters {
+			if typeKey(t) == g {
+				e.ghSet(st, "gw:"+g+".len", BV(64), r, BVConst(0, 64))
+			}
+		}
+	}
 	return p
 }
 
